@@ -24,6 +24,11 @@ def scapy_from_spec(spec):
     link = spec.get("link")
     if not link:
         return (ScapyIP if v == 4 else ScapyIPv6)(raw)
+    if link == "tunnel":
+        # the datagram travels inside an IPv4 tunnel (IP-in-IP / 6in4) and the caller hands over the INNER layer of the dissected frame:
+        # that layer, not the tunnel header, is the packet
+        outer = ScapyIP(bytes(ScapyIP(src="192.0.2.1", dst="192.0.2.2", ttl=250, id=0, flags=0, proto=4 if v == 4 else 41) / raw))
+        return outer.payload
     from scapy.layers.l2 import CookedLinux, Dot1Q, Ether
     et = 0x0800 if v == 4 else 0x86DD
     key = (link, et)
@@ -75,6 +80,20 @@ def load_db(text, db=None):
             f.write(text)
         db = Database() if db is None else db
         _LOADS[0] += 1
+        if _LOADS[0] % 4 == 3:
+            # a RELATIVE path, named like the bundled database ("data/p0f.fp" below the current directory): it is the caller's file that is read
+            cwd = os.getcwd()
+            rel_dir = os.path.join(_TMP, "cwd-%d" % os.getpid())
+            os.makedirs(os.path.join(rel_dir, "data"), exist_ok=True)
+            rel = os.path.join(rel_dir, "data", "p0f.fp")
+            os.replace(path, rel)
+            path = rel
+            try:
+                os.chdir(rel_dir)
+                db.load("data/p0f.fp" if _LOADS[0] % 8 == 3 else pathlib.Path("data/p0f.fp"))
+            finally:
+                os.chdir(cwd)
+            return db
         db.load(path if _LOADS[0] % 2 else pathlib.Path(path))      # both accepted path types
         return db
     finally:
